@@ -331,10 +331,59 @@ def tie_history(ctx, drv, hist, causal, inb, outb):
         ctx.count('hist', 'path:%s' % ('shape-stable(theorem applies)' if lean else 'republished-with-another-shape'))
         if bool(lean) != bool(mine):
             ctx.disagree('hist', {'fn': 'stable', 'history': hist, 'path': list(p)}, lean, mine)
+        # the weaker hypotheses (Props.C05Drop): spine-stable = no publication CLASHES with the path;
+        # DropsLow = a task that republishes the variable without the leaf saw a version <= 1 of it - read off
+        # the REAL inbound contexts here, decided on the model run by Lean
+        pubs = [t for t in hist if p[0] in t['published']]
+        spine = not any(clashes(t['published'][p[0]], p[1:]) for t in pubs) and \
+            not any('.'.join(q) == '.'.join(p) and q != p for t in hist for v in causal.leaves[t['name']]
+                    for q in causal.leaves[t['name']][v])
+        drops = [t for t in pubs if lookup(t['published'], p)[0] == 'absent']      # as Hist.Drops
+        low = all(canon_ctx(inb[t['name']] or {})['vers'].get('.'.join(p), 0) <= 1 for t in drops)
+        lean2 = drv.call('ctx.stable2', {'tasks': tasks, 'var': p[0], 'rest': list(p[1:])})
+        ctx.evaluated('hist', ['stable2', tasks, list(p)], nontrivial=bool(drops))
+        if not lean:
+            ctx.count('hist', 'path:%s' % ('leaf dropped, weaker theorem applies' if lean2['spine'] and lean2['dropsLow']
+                                           else 'outside the theorems (finding G territory)'))
+        if norm(lean2) != norm({'spine': spine, 'dropsLow': low}):
+            ctx.disagree('hist', {'fn': 'stable2', 'history': hist, 'path': list(p)}, lean2,
+                         {'spine': spine, 'dropsLow': low})
+
+
+def _h(*tasks):
+    return [{'name': 't%d' % i, 'parents': ['t%d' % p for p in ps], 'published': pub} for i, (ps, pub) in enumerate(tasks)]
+
+
+# the histories of the Lean examples (Props.C05Causal.exH, Props.C05Drop.exD) and of the counter-witness
+# Props.C05Drop.exG (drop_after_two_generations_fails), with the expected visible d.x at the last join
+WITNESSES = [
+    ('exH', _h(([], {'d': {'x': 0, 'y': 0}}), ([0], {'d': {'x': 'A', 'y': 0}}), ([0], {}), ([0], {'w': 1}),
+               ([2, 1], {}), ([4, 3], {})), 'A'),
+    ('exD', _h(([], {'d': {'x': 0, 'y': 0}}), ([0], {'d': {'x': 'A', 'y': 0}}), ([0], {'d': {'y': 'B'}}), ([0], {}),
+               ([1, 2], {}), ([4], {}), ([5, 3], {})), 'A'),
+    ('exG', _h(([], {'d': {'x': 0, 'y': 0}}), ([0], {'d': {'x': 'A', 'y': 0}}), ([1], {'d': {'y': 'Z'}}), ([0], {}),
+               ([1], {}), ([3, 2], {}), ([4, 5], {})), 0),
+]
+
+
+def run_witnesses(ctx):
+    """the histories the Lean examples / the `_fails` theorem are about, on the REAL functions: exH and exD show
+    the value the theorems give, exG shows the stale value (that is the replay of the counter-witness; the
+    monitor files it under known finding G)"""
+    for name, hist, want in WITNESSES:
+        for hashed in (False, True):
+            inb = run_history(ctx, copy.deepcopy(hist), hashed)
+            got = lookup(inb[hist[-1]['name']], ('d', 'x'))
+            ctx.evaluated('hist', ['witness', name, hashed], nontrivial=True)
+            ctx.count('hist', 'witness:%s' % name)
+            if got != ('leaf', want):
+                ctx.disagree('hist', {'fn': 'witness', 'name': name, 'history': hist}, ['leaf', want], list(got))
 
 
 def run_chunk(ctx, n_histories):
     rng = ctx.rng
+    if getattr(ctx, 'chunk', 0) == 0:
+        run_witnesses(ctx)
     for hi in range(n_histories):
         hashed = rng.random() < 0.5
         ctx.count('ctx', 'hashed-version-keys' if hashed else 'plain-version-keys')
@@ -535,6 +584,12 @@ def clashes(val, path):
     return isinstance(cur, dict)
 
 
+def two_generations(causal, P, d):
+    """task d has two publishers of the leaf among its causal ancestors one of which follows the other"""
+    above = [q for q in P if q in causal.anc[d]]
+    return any(a in causal.anc[b] for a in above for b in above)
+
+
 class Causal(object):
     """strict-ancestor sets and per-task leaf maps of a history [{'name','parents','published'}]"""
 
@@ -595,14 +650,14 @@ def check_leaves(ctx, stream, causal, tname, data, replay, inputs=None):
                     what = 'the visible value of %s was published by no causal predecessor' % '.'.join(p)
                     sig = {'kind': 'leaf-value-from-nowhere'}
                 else:
-                    # known finding G needs a republication with another shape that causally FOLLOWS a
-                    # publisher newer than the stale one (its context then carries that publisher's
-                    # version without the value)
-                    # ... or one whose value CLASHES with the path (a non-dict above it, or a dict at it):
-                    # any inherited copy of such a value is compared under another version key
-                    g = any(clashes(causal.by[d]['published'][v], p[1:]) for d in SC) or \
-                        any(q in causal.anc[d] and any(not causal.before(q, w) for w in cands)
-                            for d in SC for q in P)
+                    # known finding G needs a republication whose value CLASHES with the path (a non-dict above
+                    # it, or a dict at it: any inherited copy of such a value is compared under another version
+                    # key), or a wholesale republication WITHOUT the leaf by a task that has already seen TWO
+                    # generations of it (its context keeps the version without the value and a staler copy
+                    # inherits it at the next join).  Outside that (Props.C05Drop: spine-stable republication,
+                    # DropsLow) the statement is a theorem of the model and a deviation is a violation.
+                    g = any(clashes(causal.by[d]['published'][v], p[1:]) or two_generations(causal, P, d)
+                            for d in SC)
                     what = ('task %s sees %s = %r, the copy of %s, although %s published it causally later'
                             % (tname, '.'.join(p), x, cands, M))
                     sig = {'kind': 'versioning-value-shape-change'} if g and merged else {'kind': 'stale-leaf-value'}
@@ -616,7 +671,8 @@ def check_leaves(ctx, stream, causal, tname, data, replay, inputs=None):
                 else:
                     what = ('leaf %s is not visible to %s (%s) although %s published it after every '
                             'republication of another shape' % ('.'.join(p), tname, kind, M))
-                    sig = {'kind': 'versioning-value-shape-change'} if merged else {'kind': 'leaf-lost'}
+                    clash = any(clashes(causal.by[d]['published'][v], p[1:]) for d in SC)
+                    sig = {'kind': 'versioning-value-shape-change'} if merged and clash else {'kind': 'leaf-lost'}
             ctx.count(stream, 'leaf-monitor-hit:' + sig['kind'])
             ctx.violation(what, dict(replay, leaf=list(p), visible=[kind, x], publishers=sorted(P),
                                      maximal=sorted(M), other_shape=sorted(SC)), sig)
